@@ -41,14 +41,16 @@ Pick(S) == IF Sim /\ S # {} THEN {RandomElement(S)} ELSE S
 
 HasBody(i) == Items[i].lo > 0
 
-\* files that contain at least one definition with a body (a possible victim)
-Files == {f \in [1..FileLen -> 1..Len(Items)] : \E p \in 1..FileLen : HasBody(f[p])}
+\* files that contain at least one definition with a body (a possible victim); exhaustive mode: the victim first,
+\* then one of the designated followers (one per way a following definition can start)
+Files == IF Sim THEN {f \in [1..FileLen -> 1..Len(Items)] : \E p \in 1..FileLen : HasBody(f[p])}
+         ELSE {f \in [1..2 -> 1..Len(Items)] : HasBody(f[1]) /\ Items[f[2]].follower}
 
 Init == /\ \E f \in Pick(Files) : file = f
         /\ victim = 0 /\ body = <<>> /\ lo = 0 /\ hi = 0 /\ edits = <<>>
 
 Choose == /\ victim = 0
-          /\ \E v \in Pick({p \in 1..Len(file) : HasBody(file[p])}) :
+          /\ \E v \in Pick({p \in 1..Len(file) : HasBody(file[p]) /\ (Sim \/ p = 1)}) :
                /\ victim' = v
                /\ body' = Items[file[v]].lex
                /\ lo' = Items[file[v]].lo /\ hi' = Items[file[v]].hi
